@@ -105,7 +105,7 @@ fn int_sums_2d<const R: usize, const C: usize, const RC: usize>(ld: u8, lw: u8) 
 fn c06_int_sums_2x3_f_c() {
     int_sums_2d::<2, 3, 6>(1, 0);
 }
-//@ prop=C06,C18,C20 tier=quick mem=5 timeout=3000 inst="ArrayView2<i32> 2x3; data stepped, weights both axes reversed" bounds="all i8-range payloads; unwind 10" cbmc="--unwindset memcmp.0:33"
+//@ prop=C06,C18:thorough,C20:thorough tier=quick mem=5 timeout=3000 inst="ArrayView2<i32> 2x3; data stepped, weights both axes reversed" bounds="all i8-range payloads; unwind 10" cbmc="--unwindset memcmp.0:33"
 #[kani::proof]
 #[kani::unwind(10)]
 fn c06_int_sums_2x3_step_rev() {
@@ -125,7 +125,7 @@ fn c06_int_sums_3x2_c_f() {
 }
 
 /// 1-D integer lanes carved from buffers (stride / reversal).
-//@ prop=C06,C20 tier=quick mem=4 timeout=1800 inst="ArrayView1<i32>, data reversed stride 2, weights stride 3, len 4" bounds="all i8-range payloads; unwind 14"
+//@ prop=C06,C20:thorough tier=quick mem=4 timeout=1800 inst="ArrayView1<i32>, data reversed stride 2, weights stride 3, len 4" bounds="all i8-range payloads; unwind 14"
 #[kani::proof]
 #[kani::unwind(14)]
 fn c06_int_sums_1d_i32() {
@@ -196,7 +196,7 @@ fn c06_axis_equals_lane_f32() {
 
 /// f32 / small-integer payloads: every partial sum is exact in any association order, so the
 /// result must equal the exact value (pairing and normaliser for the float instantiation).
-//@ prop=C06,C20 tier=quick mem=6 timeout=3000 inst="ArrayView2<f32> 2x2, data stepped, weights F-order" bounds="payloads integers in -8..=7; unwind 8" cbmc="--unwindset memcmp.0:33"
+//@ prop=C06,C20:thorough tier=quick mem=6 timeout=3000 inst="ArrayView2<f32> 2x2, data stepped, weights F-order" bounds="payloads integers in -8..=7; unwind 8" cbmc="--unwindset memcmp.0:33"
 #[kani::proof]
 #[kani::unwind(8)]
 fn c06_small_f32_2x2() {
